@@ -11,6 +11,7 @@ From OsmtV.Print Require Import Gen_Tokens Reader ReaderProofs LexLemmas Quote Q
 Import ListNotations.
 Open Scope string_scope.
 Open Scope nat_scope.
+Open Scope list_scope.
 
 (* ---------------------------------------------------------------------------------------------
    (1) tokens of an s-expression, and the parser *)
